@@ -227,15 +227,11 @@ theorem nixSyntaxError_is_not_a_ValueError :
 `Gen.partialSites`: every `xs[<constant>]` and one-argument `next(it)` in a function reachable from
 parse / from_cst / rebuild that is not dominated by a test of the same sequence (see
 `gen_raises.partial_sites`). These are where an IndexError / StopIteration could come from without any
-`raise` statement. The unchanged tree has eleven; each is total for the reason given. A new unguarded
+`raise` statement. The unchanged tree has eight; each is total for the reason given. A new unguarded
 `value[0]` breaks the theorem even when no generated input reaches it. Other implicit failures
 (attribute access on `None`, wrong argument types) are not inventoried: oracle only. -/
 
 def excusedPartial : List (String × String × String) := [
-  -- `lines = inner.split("\n")`: str.split never returns an empty list; `normalized = [lines[0]]`
-  ("index", "expressions/comment.py:Comment.from_cst", "lines[0]"),
-  ("index", "expressions/comment.py:Comment.from_cst", "normalized[0]"),
-  ("index", "expressions/comment.py:MultilineComment.rebuild", "lines[0]"),
   -- a `?` inside `formal` follows the formal's identifier (grammar); a MISSING identifier makes
   -- has_error true, so the tree never reaches from_cst
   ("index", "expressions/function/definition.py:_parse_argument_set", "argument_set[-1]"),
